@@ -266,6 +266,14 @@ func c08Monitor(args []string) int {
 						}
 						if !eqInts(legalGot, legalWant) {
 							rep.Violate("evasion-omits-legal-move", in, fmt.Sprintf("legal among on-demand evasions [%s] ; legal moves of that mode [%s]", codesToUci(legalGot), codesToUci(legalWant)))
+						} else if pv != MoveNone && !alien && len(got) > 0 && got[0].MoveOf() != pv.MoveOf() {
+							// a PV move that is among the delivered evasions comes first there as well
+							for _, c := range legalGot {
+								if c == int(pv.MoveOf()) {
+									rep.Violate("on-demand-pv-not-first", in, fmt.Sprintf("evasion mode: first move %s", got[0].StringUci()))
+									break
+								}
+							}
 						}
 					} else if !eqInts(gotS, want) {
 						rep.Violate("on-demand-differs-from-batch", in, fmt.Sprintf("on demand [%s] ; batch [%s]", codesToUci(gotS), codesToUci(want)))
